@@ -137,8 +137,14 @@ def step (st : State) (ws : List String) : State × String :=
       match cdp? with
       | some c =>
         let (s', status, spawn) := handshake s ⟨i, n, c⟩ cs
+        -- The walk over the repository map has no defined order (Go map): with a closed entry AND an open entry that lists
+        -- the certificate in the map, the lookup ends at whichever comes first — `error` or `revoked`, a rejection either
+        -- way. Both sides of the comparison print that pair of outcomes in this one situation.
+        let hasClosed := s'.entries.any (fun p => p.2.closed)
+        let isListed := s'.entries.any (fun p => !p.2.closed && p.2.loaded && listed p.2.store ⟨i, n, c⟩)
+        let shown := if hasClosed && isListed && status != .notRevoked && !spawn then "revoked|error" else statusName status
         -- a spawned background refresh races with the observer: the snapshot is taken by the following `tick`
-        ({ s := s' }, s!"{statusName status} spawn={spawn} {if spawn then "E[*]" else snapshot s'}")
+        ({ s := s' }, s!"{shown} spawn={spawn} {if spawn then "E[*]" else snapshot s'}")
       | none => (st, "bad-op")
     | _, _, _ => (st, "bad-op")
   | ["tick"] =>
